@@ -9,7 +9,7 @@ def run(R):
     common.load_ir(R)
     names = common.names_for(R, 'C13')
     obs = check.verify_functions(R, names)
-    obs += common.avr_pass(R, names, leave_out=('getNow#post#exact-time',))
+    obs += common.avr_pass(R, names, leave_out=('SystemClock::getNow#',))
     obs += common.lemma_obligations(R, 'C13')
     check.discharge(R, obs, timeout=120)
     R.assumptions += [
